@@ -351,7 +351,7 @@ func runScript(sc *Script, rng *rand.Rand, sum *hx.Summary) ([]interface{}, Skel
 	conn.ClientSend(fr)
 	select {
 	case <-handlerDone:
-	case <-time.After(3 * waitLimit):
+	case <-time.After(2 * waitLimit):
 		hung = "handler"
 	}
 	lg.mu.Lock()
@@ -442,9 +442,10 @@ func record(out string, n int, sum *hx.Summary) {
 	rng := hx.Rand()
 	w := hx.NewWriter(out)
 	defer w.Close()
+	hangs := 0
 	for i := 0; i < n; i++ {
 		sc := &Script{Sig: []string{"good", "good", "good", "none", "bad", "nokey"}[rng.Intn(6)], End: []string{"close", "close", "leave"}[rng.Intn(3)],
-			Opcode: []int{0, 0, 0, 4, 5}[rng.Intn(5)], RD: rng.Intn(2) == 0, CD: rng.Intn(2) == 0}
+			Opcode: []int{0, 0, 0, 4}[rng.Intn(4)], RD: rng.Intn(2) == 0, CD: rng.Intn(2) == 0}
 		for k := rng.Intn(7); k > 0; k-- {
 			switch rng.Intn(10) {
 			case 0:
@@ -460,7 +461,12 @@ func record(out string, n int, sum *hx.Summary) {
 		if rng.Intn(4) == 0 && len(sc.Kinds) > 0 {
 			sc.FailAt = 1 + rng.Intn(len(sc.Kinds))
 		}
-		evs, _, _ := runScript(sc, rng, sum)
+		evs, _, ok := runScript(sc, rng, sum)
+		if !ok {
+			if hangs++; hangs >= 3 {
+				break
+			}
+		}
 		for _, e := range evs {
 			w.Emit(e)
 		}
